@@ -69,6 +69,7 @@ namespace {
         uint64_t grant_seq = 0, release_seq = 0;
         int version_at_grant = -1;
         int rw_before = 0;          // number of read-write requests with a smaller index
+        bool new_wave = false;      // requested only after all earlier accesses have been released
     };
     std::vector<Req> R;
     int g_rw_active = -1;    // index of the read-write access currently held (-1 none)
@@ -244,10 +245,19 @@ namespace {
             int n = (int) R.size();
             held.resize((size_t) n);
             slots.resize((size_t) n);
+            auto mtx = std::make_unique<Mutex>(std::forward<A>(ctor)...);
+            // The program is cut into waves: the requests of a wave are taken from the mutex (on this thread, in
+            // order) only after every access of the earlier waves has been released, so that requests also meet
+            // a mutex whose current state nobody else references any more.
+            std::vector<int> wave_start{0};
+            for (int i = 1; i < n; i++)
+                if (R[(size_t) i].new_wave) wave_start.push_back(i);
+            wave_start.push_back(n);
+            probe("waves", (uint64_t) wave_start.size() - 1);
+            for (size_t w = 0; w + 1 < wave_start.size(); w++)
             {
-                auto mtx = std::make_unique<Mutex>(std::forward<A>(ctor)...);
-                // requests are taken from the mutex on one thread, in order
-                for (int i = 0; i < n; i++)
+                int const a = wave_start[w], b = wave_start[w + 1];
+                for (int i = a; i < b; i++)
                 {
                     Req& r = R[(size_t) i];
                     if (r.kind == 1)
@@ -297,51 +307,58 @@ namespace {
                         };
                     }
                 }
-                if (!destroy_mutex_early) mtx_keep = std::move(mtx);
-                else
-                    probe("mutex_destroyed_first");
-            }
-            // dropped accesses are modelled as granted+released at the moment the library grants them:
-            // they have no receiver, so the model treats them as released once started (they cannot
-            // be observed); order checks skip them by marking them released when their turn comes.
-            std::vector<std::thread> th;
-            for (int t = 0; t < nthreads; t++)
-                th.emplace_back([this, t, n] {
-                    // phase 1: this thread's start actions, in index order
-                    for (int i = 0; i < n; i++)
+                if (w + 2 == wave_start.size())
+                {
+                    // all requests have been taken: the mutex object may go before the accesses
+                    if (!destroy_mutex_early) mtx_keep = std::move(mtx);
+                    else
                     {
-                        Req& r = R[(size_t) i];
-                        if (r.starter != t) continue;
-                        for (int y = 0; y < r.start_delay; y++) std::this_thread::yield();
-                        slots[(size_t) i].start();
+                        probe("mutex_destroyed_first");
+                        mtx.reset();
                     }
-                    // phase 2: releases assigned to this thread, whenever they become possible
-                    for (;;)
-                    {
-                        bool pending = false;
-                        for (int i = 0; i < n; i++)
+                }
+                // dropped accesses are modelled as granted+released at the moment the library grants them:
+                // they have no receiver, so the model treats them as released once started (they cannot
+                // be observed); order checks skip them by marking them released when their turn comes.
+                std::vector<std::thread> th;
+                for (int t = 0; t < nthreads; t++)
+                    th.emplace_back([this, t, a, b] {
+                        // phase 1: this thread's start actions, in index order
+                        for (int i = a; i < b; i++)
                         {
                             Req& r = R[(size_t) i];
-                            bool do_release = false;
-                            {
-                                AtomicSection atomic;
-                                if (r.releaser != t || r.all_released || r.action == ACT_DROP) continue;
-                                pending = true;
-                                if (r.grants == r.expected_grants && r.holders > 0)
-                                {
-                                    if (r.release_delay > 0)
-                                        r.release_delay--;
-                                    else
-                                        do_release = true;
-                                }
-                            }
-                            if (do_release) release_held(i);
+                            if (r.starter != t) continue;
+                            for (int y = 0; y < r.start_delay; y++) std::this_thread::yield();
+                            slots[(size_t) i].start();
                         }
-                        if (!pending) break;
-                        std::this_thread::yield();
-                    }
-                });
-            for (auto& t : th) t.join();
+                        // phase 2: releases assigned to this thread, whenever they become possible
+                        for (;;)
+                        {
+                            bool pending = false;
+                            for (int i = a; i < b; i++)
+                            {
+                                Req& r = R[(size_t) i];
+                                bool do_release = false;
+                                {
+                                    AtomicSection atomic;
+                                    if (r.releaser != t || r.all_released || r.action == ACT_DROP) continue;
+                                    pending = true;
+                                    if (r.grants == r.expected_grants && r.holders > 0)
+                                    {
+                                        if (r.release_delay > 0)
+                                            r.release_delay--;
+                                        else
+                                            do_release = true;
+                                    }
+                                }
+                                if (do_release) release_held(i);
+                            }
+                            if (!pending) break;
+                            std::this_thread::yield();
+                        }
+                    });
+                for (auto& t : th) t.join();
+            }
             sim_quiesce(3000000);
         }
         std::unique_ptr<Mutex> mtx_keep;
@@ -387,6 +404,7 @@ namespace {
                 op.v[4] = r.range(0, 2);
                 op.v[5] = (int64_t) r.below((uint64_t) nthreads);
                 op.v[6] = r.range(0, 4);
+                op.v[7] = r.chance(1, 4) ? 1 : 0;    // starts a new wave
                 p.push_back(op);
             }
             ctx.program = p;
@@ -404,6 +422,7 @@ namespace {
             q.releaser = (int) (((op.v[5] % nthreads) + nthreads) % nthreads);
             q.release_delay = (int) (op.v[6] & 7);
             q.expected_grants = q.action == ACT_COPY_SENDER ? 2 : 1;
+            q.new_wave = (op.v[7] & 1) != 0;
             q.rw_before = rw_seen;
             // a dropped read-write access does not modify the value
             if (q.kind == 1 && q.action != ACT_DROP) rw_seen++;
